@@ -2,12 +2,14 @@ package sim
 
 import (
 	"bytes"
+	"context"
 	"fmt"
 	"time"
 
 	ouroboros "github.com/blinklabs-io/gouroboros"
 	"github.com/blinklabs-io/gouroboros/cbor"
 	"github.com/blinklabs-io/gouroboros/ledger"
+	"github.com/blinklabs-io/gouroboros/pipeline"
 	"github.com/blinklabs-io/gouroboros/protocol/blockfetch"
 	pcommon "github.com/blinklabs-io/gouroboros/protocol/common"
 	rt "github.com/blinklabs-io/gouroboros/verifsimrt"
@@ -123,6 +125,40 @@ func bfRangeSetup(s *rt.Sim, tier string) func() {
 			}))
 		}
 		cliOpts = append(cliOpts, blockfetch.WithBatchDoneFunc(func(blockfetch.CallbackContext) error { completions++; return nil }))
+		// arm (own stream of draws): the client hands the blocks of a range to a real BlockPipeline
+		// instead of the block callback; the pipeline's ApplyFunc is then "the block callback"
+		var pl *pipeline.BlockPipeline
+		if rt.Choose("cfg.x", 3) == 2 {
+			pl = pipeline.NewBlockPipeline(
+				pipeline.WithDecodeWorkers(oneOf("cfg.x", 1, 2, 4, 8)),
+				pipeline.WithPrefetchBufferSize(1+rt.Choose("cfg.x", 8)),
+				pipeline.WithSkipBodyHashValidation(true),
+				pipeline.WithApplyFunc(func(item *pipeline.BlockItem) error {
+					if b := item.Block(); b != nil {
+						// the record the main task polls (delivered) is written last
+						if useRaw {
+							deliveredRaw = append(deliveredRaw, item.RawCbor())
+						}
+						record(item.BlockType(), b.Hash().Bytes())
+					}
+					return nil
+				}),
+			)
+			if err := pl.Start(context.Background()); err != nil {
+				rt.Violate("C23/pipeline-start-failed", "Start: %v", err)
+				return
+			}
+			go func() {
+				for range pl.Results() {
+				}
+			}()
+			go func() {
+				for range pl.Errors() {
+				}
+			}()
+			cliOpts = append(cliOpts, blockfetch.WithPipeline(pl))
+			rt.Hit("bf.range-through-pipeline")
+		}
 		cCfg, _ := blockfetch.NewConfig(cliOpts...)
 		sCfg, _ := blockfetch.NewConfig(blockfetch.WithRequestRangeFunc(serverSide))
 		co := connOpts{ntn: true, magic: 42, keepAlive: true}
@@ -175,6 +211,12 @@ func bfRangeSetup(s *rt.Sim, tier string) func() {
 				rt.Violate("C23/range-never-completes", "range request %d: %d blocks served, %d delivered, completion callback not called within 10 simulated minutes (errors %v %v)", r, len(served), len(delivered), cw.errs, sw.errs)
 				return
 			}
+			if pl != nil {
+				// the pipeline applies behind the wire: give it time to catch up
+				for i := 0; i < 600 && len(delivered) < len(served); i++ {
+					sleep(200 * time.Millisecond)
+				}
+			}
 			if len(delivered) != len(served) {
 				rt.Violate("C23/range-block-count", "after completion of request %d: %d blocks served, %d delivered to the callback", r, len(served), len(delivered))
 				return
@@ -194,6 +236,9 @@ func bfRangeSetup(s *rt.Sim, tier string) func() {
 		}
 		cConn.Close()
 		sConn.Close()
+		if pl != nil {
+			_ = pl.Stop()
+		}
 	}
 }
 
